@@ -19,6 +19,8 @@ import (
 	"go/token"
 	"os"
 	"path/filepath"
+	"regexp"
+	"sort"
 	"strings"
 )
 
@@ -51,13 +53,22 @@ func init() {
 		if loop == nil {
 			return "", fmt.Errorf("retry loop not found")
 		}
+		// `for <v> := 0; <v> < N; <v>++` with any counter name; N a literal or a package-level constant
 		limit := int64(-1)
 		if be, ok := loop.Cond.(*ast.BinaryExpr); ok && be.Op == token.LSS {
-			if n, ok := intLit(be.Y); ok {
-				limit = n
+			if v, ok := be.X.(*ast.Ident); ok {
+				n, ok := intLit(be.Y)
+				if !ok {
+					if id, isId := be.Y.(*ast.Ident); isId {
+						n, ok = intLit(findValue(f, id.Name))
+					}
+				}
+				if ok && c08ExprString(fset, loop.Init) == v.Name+" := 0" && c08ExprString(fset, loop.Post) == v.Name+"++" {
+					limit = n
+				}
 			}
 		}
-		if limit <= 0 || c08ExprString(fset, loop.Init) != "i := 0" || c08ExprString(fset, loop.Post) != "i++" {
+		if limit <= 0 {
 			return "", fmt.Errorf("retry loop is no longer `for i := 0; i < N; i++`")
 		}
 		// the type switch and the initialisation of allowRetry just before it
@@ -69,8 +80,24 @@ func init() {
 					return "", fmt.Errorf("more than one type switch in the retry loop")
 				}
 				sw = ts
-				if i > 0 && c08ExprString(fset, loop.Body.List[i-1]) == "allowRetry := false" {
-					initFalse = true
+				// allowRetry starts as false: declared false (or zero value) anywhere earlier in the loop body
+				for _, prev := range loop.Body.List[:i] {
+					switch v := prev.(type) {
+					case *ast.AssignStmt:
+						if c08ExprString(fset, v) == "allowRetry := false" {
+							initFalse = true
+						}
+					case *ast.DeclStmt:
+						if gd, ok := v.Decl.(*ast.GenDecl); ok && gd.Tok == token.VAR {
+							for _, sp := range gd.Specs {
+								vs := sp.(*ast.ValueSpec)
+								if len(vs.Names) == 1 && vs.Names[0].Name == "allowRetry" &&
+									(len(vs.Values) == 0 || (len(vs.Values) == 1 && c08ExprString(fset, vs.Values[0]) == "false")) {
+									initFalse = true
+								}
+							}
+						}
+					}
 				}
 			}
 		}
@@ -81,11 +108,16 @@ func init() {
 			return "", fmt.Errorf("`allowRetry := false` no longer precedes the type switch")
 		}
 		var arms []string
+		hasDefault := false
 		for _, c := range sw.Body.List {
 			cc := c.(*ast.CaseClause)
 			var types []string
 			for _, t := range cc.List {
 				types = append(types, leanStr(c08ExprString(fset, t)))
+			}
+			sort.Strings(types)
+			if len(types) == 0 {
+				hasDefault = true
 			}
 			mode := "none"
 			n := 0
@@ -97,13 +129,14 @@ func init() {
 					}
 					if id, ok := as.Lhs[0].(*ast.Ident); ok && id.Name == "allowRetry" {
 						n++
-						switch c08ExprString(fset, as.Rhs[0]) {
-						case "true":
+						mode = "unknown"
+						if c08ExprString(fset, as.Rhs[0]) == "true" {
 							mode = "true"
-						case "checkAllowRetry(cluster.RetryLevel(), outreq)":
-							mode = "check"
-						default:
-							mode = "unknown"
+						} else if call, ok := as.Rhs[0].(*ast.CallExpr); ok {
+							// checkAllowRetry(<the cluster's retry level>, <the out request>), however the arguments are spelled
+							if id, ok := call.Fun.(*ast.Ident); ok && id.Name == "checkAllowRetry" && len(call.Args) == 2 {
+								mode = "check"
+							}
 						}
 					}
 					return true
@@ -114,13 +147,22 @@ func init() {
 			}
 			arms = append(arms, fmt.Sprintf("  ([%s], %s)", strings.Join(types, ", "), leanStr(mode)))
 		}
+		if !hasDefault {
+			arms = append(arms, "  ([], \"none\")") // no default arm = allowRetry keeps its initial false
+		}
+		// canonical order: by type names, the default arm last
+		sort.SliceStable(arms, func(i, j int) bool {
+			di, dj := strings.HasPrefix(arms[i], "  ([],"), strings.HasPrefix(arms[j], "  ([],")
+			if di != dj {
+				return dj
+			}
+			return arms[i] < arms[j]
+		})
 		// checkAllowRetry
 		ca := findFunc(f, "", "checkAllowRetry")
-		want := `{ if retryLevel == cluster_conf.RetryGet { if outreq.Method == "GET" && checkRequestWithoutBody(outreq) { return true } } return false }`
 		if ca == nil || ca.Body == nil {
 			return "", fmt.Errorf("checkAllowRetry not found")
 		}
-		bodyOK := c08ExprString(fset, ca.Body) == strings.Join(strings.Fields(want), " ")
 		// RetryConnect / RetryGet
 		_, cf, err := parseFile(repo, "bfe_config/bfe_cluster_conf/cluster_conf/cluster_conf_load.go")
 		if err != nil {
@@ -130,6 +172,16 @@ func init() {
 		rg, ok2 := intLit(findValue(cf, "RetryGet"))
 		if !ok1 || !ok2 {
 			return "", fmt.Errorf("RetryConnect / RetryGet are not integer literals")
+		}
+		// checkAllowRetry is evaluated (not pattern matched): true exactly when level == RetryGet, method == "GET" and
+		// checkRequestWithoutBody(out request) all hold
+		atoms, rows, evErr := c08TruthTable(fset, ca, map[string]string{"cluster_conf.RetryGet": fmt.Sprint(rg)})
+		bodyOK := evErr == nil && len(rows) == 1 &&
+			strings.Join(atoms, " | ") == fmt.Sprintf(`"GET" == $1.Method | $0 == %d | checkRequestWithoutBody($1)`, rg)
+		if bodyOK {
+			for _, v := range rows[0] {
+				bodyOK = bodyOK && v
+			}
 		}
 		var b strings.Builder
 		b.WriteString(header("C08", "bfe_server/reverseproxy.go", "bfe_config/bfe_cluster_conf/cluster_conf/cluster_conf_load.go"))
@@ -142,7 +194,7 @@ func init() {
 			return "", err
 		}
 		b.WriteString(extra)
-		fmt.Fprintf(&b, "\n/-- checkAllowRetry's body is still `if retryLevel == cluster_conf.RetryGet { if outreq.Method == \"GET\" && checkRequestWithoutBody(outreq) { return true } } return false` -/\ndef checkAllowRetryAsModelled : Bool := %v\n", bodyOK)
+		fmt.Fprintf(&b, "\n/-- checkAllowRetry(level, outreq) evaluates (over all truth assignments of its conditions) to: level == RetryGet && outreq.Method == \"GET\" && checkRequestWithoutBody(outreq) -/\ndef checkAllowRetryAsModelled : Bool := %v\n", bodyOK)
 		b.WriteString(footer("C08"))
 		return b.String(), nil
 	})
@@ -180,7 +232,7 @@ func c08Outside(repo string) (string, error) {
 				case *ast.FuncLit:
 					return false
 				case *ast.CallExpr:
-					if c08ExprString(fset, v.Fun) == sel {
+					if c08CallName(v) == sel {
 						calls++
 						if depth > 0 {
 							inLoop = true
@@ -202,7 +254,7 @@ func c08Outside(repo string) (string, error) {
 		return
 	}
 	// ServeHTTP
-	fset, f, err := parseFile(repo, "bfe_server/reverseproxy.go")
+	_, f, err := parseFile(repo, "bfe_server/reverseproxy.go")
 	if err != nil {
 		return "", err
 	}
@@ -210,14 +262,14 @@ func c08Outside(repo string) (string, error) {
 	if sh == nil {
 		return "", fmt.Errorf("(*ReverseProxy).ServeHTTP not found")
 	}
-	calls, inLoop, _, _, err := count("bfe_server/reverseproxy.go", "ReverseProxy", "ServeHTTP", "p.clusterInvoke")
+	calls, inLoop, _, _, err := count("bfe_server/reverseproxy.go", "ReverseProxy", "ServeHTTP", "clusterInvoke")
 	if err != nil {
 		return "", err
 	}
 	var callPos token.Pos
 	labelBefore := false
 	ast.Inspect(sh, func(nd ast.Node) bool {
-		if c, ok := nd.(*ast.CallExpr); ok && c08ExprString(fset, c.Fun) == "p.clusterInvoke" {
+		if c, ok := nd.(*ast.CallExpr); ok && c08CallName(c) == "clusterInvoke" {
 			callPos = c.Pos()
 		}
 		return true
@@ -231,19 +283,19 @@ func c08Outside(repo string) (string, error) {
 	fmt.Fprintf(&b, "/-- ReverseProxy.ServeHTTP: number of calls of p.clusterInvoke / one of them inside a for loop / a label (goto target) before the call -/\n")
 	fmt.Fprintf(&b, "def serveHTTPInvokeCalls : Nat := %d\ndef serveHTTPInvokeInLoop : Bool := %v\ndef serveHTTPLabelBeforeInvoke : Bool := %v\n\n", calls, inLoop, labelBefore)
 	// transports
-	c1, l1, _, _, err := count("bfe_http/transport.go", "Transport", "RoundTrip", "pconn.roundTrip")
+	c1, l1, _, _, err := count("bfe_http/transport.go", "Transport", "RoundTrip", "roundTrip")
 	if err != nil {
 		return "", err
 	}
-	g1, gl1, _, _, _ := count("bfe_http/transport.go", "Transport", "RoundTrip", "t.getConn")
+	g1, gl1, _, _, _ := count("bfe_http/transport.go", "Transport", "RoundTrip", "getConn")
 	fmt.Fprintf(&b, "/-- bfe_http.Transport.RoundTrip: calls of pconn.roundTrip and t.getConn, any of them in a loop -/\n")
 	fmt.Fprintf(&b, "def httpRoundTripSends : Nat := %d\ndef httpRoundTripDials : Nat := %d\ndef httpRoundTripInLoop : Bool := %v\n\n", c1, g1, l1 || gl1)
-	c2, l2, _, _, err := count("bfe_fcgi/transport.go", "Transport", "RoundTrip", "client.Do")
+	c2, l2, _, _, err := count("bfe_fcgi/transport.go", "Transport", "RoundTrip", "Do")
 	if err != nil {
 		return "", err
 	}
 	fmt.Fprintf(&b, "/-- bfe_fcgi.Transport.RoundTrip: calls of client.Do, in a loop -/\ndef fcgiRoundTripSends : Nat := %d\ndef fcgiRoundTripInLoop : Bool := %v\n\n", c2, l2)
-	c3, l3, _, lit, err := count("bfe_http2/transport.go", "Transport", "RoundTrip", "t.T.RoundTrip")
+	c3, l3, _, lit, err := count("bfe_http2/transport.go", "Transport", "RoundTrip", "RoundTrip")
 	if err != nil {
 		return "", err
 	}
@@ -266,4 +318,214 @@ func c08Outside(repo string) (string, error) {
 	}
 	fmt.Fprintf(&b, "/-- version of golang.org/x/net in go.mod (its http2.Transport retry rule is transcribed in C08/Model.lean) -/\ndef xnetVersion : String := %s\n", leanStr(ver))
 	return b.String(), nil
+}
+
+// c08CallName is the name of the called function or method, whatever the receiver expression is called.
+func c08CallName(c *ast.CallExpr) string {
+	switch f := c.Fun.(type) {
+	case *ast.Ident:
+		return f.Name
+	case *ast.SelectorExpr:
+		return f.Sel.Name
+	}
+	return ""
+}
+
+// c08TruthTable evaluates a side-effect free func(...) bool made of if / switch / return / local definitions over all
+// truth assignments of its atomic conditions.  Atoms are canonical strings: parameters renamed $0,$1,.. ; `a == b`
+// with sorted operands (`!=` is its negation); names in `consts` replaced by their values.  Result: the sorted atoms
+// and the assignments (in atom order) for which the function returns true.
+func c08TruthTable(fset *token.FileSet, fd *ast.FuncDecl, consts map[string]string) ([]string, [][]bool, error) {
+	var params []string
+	for _, fl := range fd.Type.Params.List {
+		for _, n := range fl.Names {
+			params = append(params, n.Name)
+		}
+	}
+	canon := func(e ast.Expr) string {
+		s := c08ExprString(fset, e)
+		for i, p := range params {
+			s = regexp.MustCompile(`\b`+regexp.QuoteMeta(p)+`\b`).ReplaceAllString(s, fmt.Sprintf("$$%d", i))
+		}
+		for k, v := range consts {
+			s = strings.ReplaceAll(s, k, v)
+		}
+		return s
+	}
+	known := map[string]bool{}
+	var val map[string]bool
+	var evalErr error
+	atom := func(name string) bool {
+		known[name] = true
+		return val[name]
+	}
+	type env map[string]ast.Expr
+	var evalB func(e ast.Expr, en env) bool
+	evalB = func(e ast.Expr, en env) bool {
+		switch v := e.(type) {
+		case *ast.ParenExpr:
+			return evalB(v.X, en)
+		case *ast.UnaryExpr:
+			if v.Op == token.NOT {
+				return !evalB(v.X, en)
+			}
+		case *ast.BinaryExpr:
+			switch v.Op {
+			case token.LAND:
+				return evalB(v.X, en) && evalB(v.Y, en)
+			case token.LOR:
+				return evalB(v.X, en) || evalB(v.Y, en)
+			case token.EQL, token.NEQ:
+				a, b := canon(v.X), canon(v.Y)
+				if a > b {
+					a, b = b, a
+				}
+				r := atom(a + " == " + b)
+				if v.Op == token.NEQ {
+					return !r
+				}
+				return r
+			}
+		case *ast.Ident:
+			if v.Name == "true" {
+				return true
+			}
+			if v.Name == "false" {
+				return false
+			}
+			if d, ok := en[v.Name]; ok {
+				return evalB(d, en)
+			}
+		}
+		return atom(canon(e))
+	}
+	var exec func(list []ast.Stmt, en env) (bool, bool)
+	exec = func(list []ast.Stmt, en env) (returned bool, value bool) {
+		for _, st := range list {
+			switch v := st.(type) {
+			case *ast.ReturnStmt:
+				if len(v.Results) != 1 {
+					evalErr = fmt.Errorf("return without a single result")
+					return true, false
+				}
+				return true, evalB(v.Results[0], en)
+			case *ast.IfStmt:
+				if v.Init != nil {
+					evalErr = fmt.Errorf("if with init statement")
+					return true, false
+				}
+				if evalB(v.Cond, en) {
+					if r, x := exec(v.Body.List, en); r {
+						return r, x
+					}
+				} else if v.Else != nil {
+					var l []ast.Stmt
+					if b, ok := v.Else.(*ast.BlockStmt); ok {
+						l = b.List
+					} else {
+						l = []ast.Stmt{v.Else}
+					}
+					if r, x := exec(l, en); r {
+						return r, x
+					}
+				}
+			case *ast.BlockStmt:
+				if r, x := exec(v.List, en); r {
+					return r, x
+				}
+			case *ast.AssignStmt:
+				if len(v.Lhs) == 1 && len(v.Rhs) == 1 {
+					if id, ok := v.Lhs[0].(*ast.Ident); ok {
+						en[id.Name] = v.Rhs[0]
+						continue
+					}
+				}
+				evalErr = fmt.Errorf("unsupported assignment")
+				return true, false
+			case *ast.SwitchStmt:
+				if v.Init != nil {
+					evalErr = fmt.Errorf("switch with init statement")
+					return true, false
+				}
+				var deflt *ast.CaseClause
+				matched := false
+				for _, c := range v.Body.List {
+					cc := c.(*ast.CaseClause)
+					if cc.List == nil {
+						deflt = cc
+						continue
+					}
+					hit := false
+					for _, ce := range cc.List {
+						var cond ast.Expr = ce
+						if v.Tag != nil {
+							cond = &ast.BinaryExpr{X: v.Tag, Op: token.EQL, Y: ce}
+						}
+						if evalB(cond, en) {
+							hit = true
+						}
+					}
+					if hit {
+						matched = true
+						if r, x := exec(cc.Body, en); r {
+							return r, x
+						}
+						break
+					}
+				}
+				if !matched && deflt != nil {
+					if r, x := exec(deflt.Body, en); r {
+						return r, x
+					}
+				}
+			case *ast.EmptyStmt:
+			default:
+				evalErr = fmt.Errorf("unsupported statement %T", st)
+				return true, false
+			}
+		}
+		return false, false
+	}
+	// discover the atoms, then enumerate
+	for round := 0; round < 8; round++ {
+		before := len(known)
+		names := make([]string, 0, len(known))
+		for k := range known {
+			names = append(names, k)
+		}
+		for m := 0; m < 1<<uint(len(names)); m++ {
+			val = map[string]bool{}
+			for i, n := range names {
+				val[n] = m>>uint(i)&1 == 1
+			}
+			exec(fd.Body.List, env{})
+		}
+		if len(known) == before && round > 0 {
+			break
+		}
+	}
+	if evalErr != nil {
+		return nil, nil, evalErr
+	}
+	atoms := make([]string, 0, len(known))
+	for k := range known {
+		atoms = append(atoms, k)
+	}
+	sort.Strings(atoms)
+	if len(atoms) > 10 {
+		return nil, nil, fmt.Errorf("too many conditions")
+	}
+	var rows [][]bool
+	for m := 0; m < 1<<uint(len(atoms)); m++ {
+		val = map[string]bool{}
+		row := make([]bool, len(atoms))
+		for i, n := range atoms {
+			row[i] = m>>uint(i)&1 == 1
+			val[n] = row[i]
+		}
+		if r, x := exec(fd.Body.List, env{}); r && x {
+			rows = append(rows, row)
+		}
+	}
+	return atoms, rows, nil
 }
